@@ -9,6 +9,7 @@ the loader rewrites:
   N5  assert True / bare constants     ->  removed                   (expression statements that are constants, except docstrings)
   N8  x = []; for t in it: x.append(E)  ->  x = [E for t in it]   (the loop immediately follows the empty-list assignment)
   N7  logging.<...>(...) / warnings.<...>(...) statements -> removed    (calls rooted at the logging / warnings modules)
+  N9  if c: T = a else: T = b  ->  T = a if c else b   (likewise two returns / two yields)
   N6  while True: if X: break; rest    ->  while not X: rest         (loops without else whose first statement is the exit test)
 Line numbers of the surviving statements are preserved, so reports still point at the original source lines.
 """
@@ -48,6 +49,17 @@ class _N(ast.NodeTransformer):
 
     def visit_If(self, node: ast.If):
         self.generic_visit(node)
+        # N9: two single-statement arms doing the same thing with different values become one conditional expression
+        if len(node.body) == 1 and len(node.orelse) == 1:
+            a, b = node.body[0], node.orelse[0]
+            if isinstance(a, ast.Assign) and isinstance(b, ast.Assign) and len(a.targets) == 1 and len(b.targets) == 1 \
+                    and isinstance(a.targets[0], (ast.Name, ast.Attribute)) and _same(a.targets[0], b.targets[0]):
+                return ast.copy_location(ast.Assign(targets=a.targets, value=ast.IfExp(test=node.test, body=a.value, orelse=b.value)), node)
+            if isinstance(a, ast.Return) and isinstance(b, ast.Return) and a.value is not None and b.value is not None:
+                return ast.copy_location(ast.Return(value=ast.IfExp(test=node.test, body=a.value, orelse=b.value)), node)
+            if isinstance(a, ast.Expr) and isinstance(b, ast.Expr) and isinstance(a.value, ast.Yield) and isinstance(b.value, ast.Yield) \
+                    and a.value.value is not None and b.value.value is not None:
+                return ast.copy_location(ast.Expr(value=ast.Yield(value=ast.IfExp(test=node.test, body=a.value.value, orelse=b.value.value))), node)
         if node.orelse and not (len(node.orelse) == 1 and isinstance(node.orelse[0], ast.If)) \
                 and isinstance(node.test, ast.UnaryOp) and isinstance(node.test.op, ast.Not):
             return ast.copy_location(ast.If(test=node.test.operand, body=node.orelse, orelse=node.body), node)
